@@ -706,7 +706,17 @@ struct RefDriver : DriverBase<RefDriver> {
                 ++ctx.boundaryEvents;
             } else if (op == "rw_call") {
                 RefTarget* who = &rw[a]->get();
-                int const w    = static_cast<int>(who - target);
+                int w          = -1;
+                for (int i = 0; i < 3; ++i) {
+                    if (who == &target[i]) {
+                        w = i;
+                    }
+                }
+                if (w < 0) {
+                    ctx.violation("C20", "diff:reference_wrapper:referent", "reference_wrapper::get() refers to none of the objects it was bound to");
+                    ctx.stop = true;
+                    return;
+                }
                 int r          = 1;
                 int ret        = 0;
                 if (call(-1, false, false, [&] { ret = (*rw[a])(x, r); })) {
@@ -875,7 +885,13 @@ struct RefDriver : DriverBase<RefDriver> {
             uint64_t sh = 0;
             for (int k = 0; k < 3; ++k) {
                 ctx.log.kv("|", target[k].count);
-                sh = mix64(sh ^ static_cast<uint64_t>(bound[k] + 1) ^ (static_cast<uint64_t>(&rw[k]->get() - target) << 8));
+                uint64_t which = 7;
+                for (int i = 0; i < 3; ++i) {
+                    if (&rw[k]->get() == &target[i]) {
+                        which = static_cast<uint64_t>(i);
+                    }
+                }
+                sh = mix64(sh ^ static_cast<uint64_t>(bound[k] + 1) ^ (which << 8));
             }
             if (g_counting) {
                 states().insert(mix64(sh ^ hstr(name)));
